@@ -222,12 +222,12 @@ pub fn assemble(sched_seed: u64, seg: SegPattern, max_write: Option<usize>, gen:
     let mut replies = Vec::new();
     let mut k = 0usize;
     let steps = gen.into_iter().map(|g| conv(g, &mut k, &mut replies)).collect();
-    Script { sched_seed, seg, replies, steps, max_write, picture: None, broken_pipe: true, greeting: None, lazy_events: false, version: None, vectored: false, events_polled_last: false }
+    Script { sched_seed, seg, replies, steps, max_write, picture: None, broken_pipe: true, greeting: None, lazy_events: false, version: None, vectored: false, events_polled_last: false, error_kind: 0, real_ms_per_advance: 0, noise_connection: false }
 }
 
 /// Properties of the peer and the transport that no property statement restricts: the version the
 /// server announces and whether the transport takes vectored writes.
-pub fn environment() -> impl Strategy<Value = (Option<String>, bool, Option<u16>)> {
+pub fn environment() -> impl Strategy<Value = (Option<String>, bool, Option<u16>, u8, bool)> {
     (
         prop_oneof![
             6 => Just(None),
@@ -237,13 +237,19 @@ pub fn environment() -> impl Strategy<Value = (Option<String>, bool, Option<u16>
         prop::bool::weighted(0.25),
         // the application drops its ConnectionEvents handle at some point (the docs allow that)
         prop_oneof![5 => Just(None), 1 => Just(Some(0u16)), 1 => any::<u16>().prop_map(Some)],
+        // the kind of io::Error injected faults carry
+        prop_oneof![3 => Just(0u8), 4 => 1..8u8],
+        // an unrelated second connection on the same thread
+        prop::bool::weighted(0.15),
     )
 }
 
 pub fn in_environment(s: impl Strategy<Value = Script>) -> impl Strategy<Value = Script> {
-    (s, environment()).prop_map(|(mut s, (version, vectored, drop_events))| {
+    (s, environment()).prop_map(|(mut s, (version, vectored, drop_events, error_kind, noise))| {
         s.version = version;
         s.vectored = vectored;
+        s.error_kind = error_kind;
+        s.noise_connection = noise;
         if let Some(at) = drop_events {
             if !s.lazy_events && !crate::props::simprops::flatten(&s.steps).iter().any(|x| matches!(x, Step::DropEvents)) {
                 let i = crate::core::pick_idx(at, s.steps.len() + 1);
@@ -322,6 +328,7 @@ pub fn fault() -> impl Strategy<Value = Fault> {
         1 => (60..6000usize).prop_map(Fault::EofAfter),
         2 => (0..40usize).prop_map(Fault::ReadErrorAfter),
         3 => (0..4usize).prop_map(Fault::WriteErrorAfter),
+        1 => (0..4usize).prop_map(Fault::WriteZeroAfter),
         2 => (0..8usize).prop_map(|short| Fault::WriteInterruptedOnce { short }),
         2 => prop_oneof![Just("foo bar"), Just("ACK nonsense"), Just("list_OK x"), Just(": nokey"), Just("OK "), Just("binary: 2\nabX"), Just("size: 3\nbinary: 3\nabcd")].prop_map(|g| Fault::Garbage(B::from(g))),
     ]
